@@ -419,6 +419,84 @@ def manifestPath (dir : Bytes) (links : List Bytes) (name : Bytes) : Option Byte
     | some l => some (pathJoin [dir, l])
     | none => some (pathJoin [dir, maybe])
 
+/-! ## histories on one DiskCache over a shared manifests directory
+
+  `DiskCache` carries NO state about the manifests tree between calls: every `manifestPath` call globs
+  `manifests/*/*/*/*` afresh.  The model therefore threads only the DIRECTORY CONTENTS (`disk`: the relative link
+  paths in `fs.Glob` order) through a history of cache operations interleaved with foreign writers (the legacy
+  `server.WriteManifest`, another process) that create or remove manifest files directly. -/
+
+/-- bytewise lexicographic `<` (Go string comparison, `ReadDir`'s sort) -/
+def ltBytes : Bytes → Bytes → Bool
+  | [], [] => false
+  | [], _ :: _ => true
+  | _ :: _, [] => false
+  | x :: xs, y :: ys => if x < y then true else if y < x then false else ltBytes xs ys
+
+/-- component-wise order in which `fs.Glob` returns paths (each directory level sorted by entry name) -/
+def ltComps : List Bytes → List Bytes → Bool
+  | [], [] => false
+  | [], _ :: _ => true
+  | _ :: _, [] => false
+  | a :: as, b :: bs => if ltBytes a b then true else if ltBytes b a then false else ltComps as bs
+
+def linkLt (a b : Bytes) : Bool := ltComps (splitOn cSlash a) (splitOn cSlash b)
+
+/-- creating the file `l` (relative path `manifests/a/b/c/d`): the listing gains `l` at its sorted place -/
+def insertLink (l : Bytes) : List Bytes → List Bytes
+  | [] => [l]
+  | x :: xs => if x == l then x :: xs else if linkLt l x then l :: x :: xs else x :: insertLink l xs
+
+/-- removing the file `l` -/
+def removeLink (l : Bytes) (disk : List Bytes) : List Bytes := disk.filter (· != l)
+
+/-- `DiskCache.manifestPath` relative to the cache directory -/
+def manifestRel (links : List Bytes) (name : Bytes) : Option Bytes :=
+  match nameToPath name with
+  | none => none
+  | some np =>
+    let maybe := pathJoin [sManifests, np]
+    match links.find? (equalFold maybe) with
+    | some l => some l
+    | none => some maybe
+
+inductive HOp
+  | resolve (name : Bytes)   -- DiskCache.Resolve(name)            (no digest part)
+  | link (name : Bytes)      -- DiskCache.Link(name, d) for a blob d that exists
+  | unlink (name : Bytes)    -- DiskCache.Unlink(name)
+  | fwrite (rel : Bytes)     -- a foreign writer creates <dir>/<rel>   (rel = manifests/a/b/c/d)
+  | fremove (rel : Bytes)    -- a foreign writer removes <dir>/<rel>
+  deriving Repr
+
+/-- what a cache call resolved to (`none` = errInvalidName) and whether that file existed at the time -/
+structure HOut where
+  path : Option Bytes
+  existed : Bool
+  deriving Repr, DecidableEq
+
+/-- one step: the result is a function of the CURRENT directory contents and the operation only -/
+def stepH (disk : List Bytes) : HOp → List Bytes × Option HOut
+  | .resolve n =>
+    let p := manifestRel disk n
+    (disk, some ⟨p, match p with | some r => disk.contains r | none => false⟩)
+  | .link n =>
+    match manifestRel disk n with
+    | some r => (insertLink r disk, some ⟨some r, disk.contains r⟩)
+    | none => (disk, some ⟨none, false⟩)
+  | .unlink n =>
+    match manifestRel disk n with
+    | some r => (removeLink r disk, some ⟨some r, disk.contains r⟩)
+    | none => (disk, some ⟨none, false⟩)
+  | .fwrite rel => (insertLink rel disk, none)
+  | .fremove rel => (removeLink rel disk, none)
+
+def runH (disk : List Bytes) : List HOp → List Bytes × List (Option HOut)
+  | [] => (disk, [])
+  | op :: ops =>
+    let (d1, o) := stepH disk op
+    let (d2, os) := runH d1 ops
+    (d2, o :: os)
+
 /-- `blob.splitNameDigest` -/
 def splitNameDigest (s : Bytes) : Bytes × Bytes :=
   match splitLast (· == cAt) s with
